@@ -1000,7 +1000,10 @@ func (h *vfC15) setMode(mode string) bool {
 
 // outage <mode> <u> <pid>: user u holds profile pid in the primary and in the cache; every
 // mutating route is called with a request that is complete enough to reach its storage code.
-// Output: status code per route, results of the read-only second factor paths, digest.
+// Output: canonical answer per route (refused = 503, failed = 500, ok = 200/302, else the
+// code), whether both row sets are unchanged, digest before and after the direct delete.
+// Mode "up" is the sanity run (the same requests do reach the storage code and change rows);
+// its effects are undone afterwards.
 func (h *vfC15) outage(mode string, u, pid int) string {
 	state := h.state
 	user := vfUserName(u)
@@ -1013,6 +1016,7 @@ func (h *vfC15) outage(mode string, u, pid int) string {
 		return "err sync"
 	}
 	before := h.digest()
+	snapP, snapC := h.snapshot(h.rawP), h.snapshot(h.rawC)
 	if !h.setMode(mode) {
 		return "bad-op"
 	}
@@ -1033,26 +1037,17 @@ func (h *vfC15) outage(mode string, u, pid int) string {
 		return v
 	}
 	var out []string
-	add := func(name, code string) { out = append(out, name+"="+code) }
-	// --- routes that change a profile
-	add("genTOTP", h.post(state.GenerateNewTOTP, totpGeneratNewPath, user, uf(), nil))
-	add("valTOTP", h.post(state.validateNewTOTP, totpValidateNewPath, user, uf("OTP", "123456"), nil))
-	add("mgTOTP", h.post(state.totpTokenManagerHandler, totpTokenManagementPath, user,
-		uf("username", user, "index", strconv.FormatInt(tidx, 10), "action", "Disable"), nil))
-	add("u2fRegReq", h.post(state.u2fRegisterRequest, u2fRegustisterRequestPath+user, user, uf(), nil))
-	regBody := []byte(`{}`)
-	if p.RegistrationChallenge != nil {
-		tk := vfNewToken(h.t, "outage")
-		regBody, _ = json.Marshal(tk.register(p.RegistrationChallenge, vfC15Origin))
+	add := func(name, code string) {
+		switch code {
+		case "503":
+			code = "refused"
+		case "500":
+			code = "failed"
+		case "200", "302":
+			code = "ok"
+		}
+		out = append(out, name+"="+code)
 	}
-	add("u2fRegResp", h.post(state.u2fRegisterResponse, u2fRegisterRequesponsePath+user, user, nil, regBody))
-	add("waRegBegin", h.post(state.webauthnBeginRegistration, webAutnRegististerRequestPath+user, user, uf(), nil))
-	add("waRegFinish", h.post(state.webauthnFinishRegistration, webAutnRegististerFinishPath+user, user, nil, []byte(`{}`)))
-	add("mgU2F", h.post(state.u2fTokenManagerHandler, u2fTokenManagementPath, user,
-		uf("username", user, "index", strconv.FormatInt(idx, 10), "action", "Disable"), nil))
-	add("bootstrapAuth", h.post(state.BootstrapOtpAuthHandler, bootstrapOtpAuthPath, user, uf("OTP", h.otps[pid]), nil))
-	add("addUser", h.post(state.addUserHandler, addUserPath, "admin", uf("username", "fresh"+strconv.Itoa(u)), nil))
-	add("genBootstrap", h.post(state.generateBootstrapOTP, generateBoostrapOTPPath, "admin", uf("username", user), nil))
 	// --- second factor checks that must keep working from the cache
 	if sec, ok := h.secrets[pid]; ok {
 		state.totpLocalTateLimitMutex.Lock()
@@ -1067,18 +1062,44 @@ func (h *vfC15) outage(mode string, u, pid int) string {
 		state.Mutex.Lock()
 		la, ok := state.localAuthData[user]
 		state.Mutex.Unlock()
+		fin := "-"
 		if ok && la.WebAuthnChallenge != nil {
 			body := tk.assertion(la.WebAuthnChallenge.Challenge, vfC15Origin, u2fAppID, 4242)
-			add("waAuthFinish", h.post(state.webauthnAuthFinish, webAuthnAuthFinishPath, user, nil, body))
-			time.Sleep(60 * time.Millisecond) // the handler saves in a goroutine
+			fin = h.post(state.webauthnAuthFinish, webAuthnAuthFinishPath, user, nil, body)
+			time.Sleep(150 * time.Millisecond) // the handler saves in a goroutine
 		}
+		add("waAuthFinish", fin)
 	}
+	// --- routes that change a profile
+	regBody := []byte(`{}`)
+	if p.RegistrationChallenge != nil {
+		tk := vfNewToken(h.t, "outage")
+		regBody, _ = json.Marshal(tk.register(p.RegistrationChallenge, vfC15Origin))
+	}
+	add("u2fRegResp", h.post(state.u2fRegisterResponse, u2fRegisterRequesponsePath+user, user, nil, regBody))
+	add("u2fRegReq", h.post(state.u2fRegisterRequest, u2fRegustisterRequestPath+user, user, uf(), nil))
+	add("genTOTP", h.post(state.GenerateNewTOTP, totpGeneratNewPath, user, uf(), nil))
+	add("valTOTP", h.post(state.validateNewTOTP, totpValidateNewPath, user, uf("OTP", "123456"), nil))
+	add("mgTOTP", h.post(state.totpTokenManagerHandler, totpTokenManagementPath, user,
+		uf("username", user, "index", strconv.FormatInt(tidx, 10), "action", "Disable"), nil))
+	add("waRegBegin", h.post(state.webauthnBeginRegistration, webAutnRegististerRequestPath+user, user, uf(), nil))
+	add("waRegFinish", h.post(state.webauthnFinishRegistration, webAutnRegististerFinishPath+user, user, nil, []byte(`{}`)))
+	add("mgU2F", h.post(state.u2fTokenManagerHandler, u2fTokenManagementPath, user,
+		uf("username", user, "index", strconv.FormatInt(idx, 10), "action", "Disable"), nil))
+	add("bootstrapAuth", h.post(state.BootstrapOtpAuthHandler, bootstrapOtpAuthPath, user, uf("OTP", h.otps[pid]), nil))
+	add("addUser", h.post(state.addUserHandler, addUserPath, "admin", uf("username", vfUserName(1000+u)), nil))
+	add("genBootstrap", h.post(state.generateBootstrapOTP, generateBoostrapOTPPath, "admin", uf("username", user), nil))
 	after := h.digest()
+	if mode == "up" {
+		h.setMode("up")
+		h.restore(h.rawP, snapP)
+		h.restore(h.rawC, snapC)
+		return fmt.Sprintf("ok sanity changed=%s %s | %s", vfBool(before != after), strings.Join(out, " "), h.digest())
+	}
 	// --- the direct write (never loads a profile): last, it removes the user
 	add("deleteUser", h.post(state.deleteUserHandler, deleteUserPath, "admin", uf("username", user), nil))
-	afterDelete := h.digest()
 	h.setMode("up")
-	return fmt.Sprintf("ok unchanged=%s %s | %s | %s", vfBool(before == after), strings.Join(out, " "), after, afterDelete)
+	return fmt.Sprintf("ok unchanged=%s %s | %s | %s", vfBool(before == after), strings.Join(out, " "), after, h.digest())
 }
 
 // stale <mode> <u> <pidOld> <pidNew>: the cache holds pidOld for u (last synchronisation), the
